@@ -3,8 +3,10 @@
 Copies a confirmed seeded change from /tmp/seed into /verif/seeded/<Cxx>-<mN>/ with meta.json."""
 import sys, os, json, shutil, re
 pid, m, conf, caught, note = sys.argv[1:6]
-src = f"/tmp/seed/{pid}/{m}"
-dst = f"/verif/seeded/{pid}-{m}"
+root = os.environ.get("SEEDROOT", "/tmp/seed")
+tag = os.environ.get("SEEDTAG", "")
+src = f"{root}/{pid}/{m}"
+dst = f"/verif/seeded/{pid}-{tag}{m}"
 os.makedirs(dst, exist_ok=True)
 for f in ("patch.diff", "demo.rs", "notes.md"):
     shutil.copy(os.path.join(src, f), dst)
@@ -15,11 +17,11 @@ meta = {
     "property": pid,
     "breaks": notes.strip().split("\n\n")[0][:600],
     "needs_to_manifest": "see notes.md (written by the independent sub-agent that produced the change)",
-    "base_commit": "656b2a7 (pinned snapshot); applies to /repo HEAD with git apply",
+    "base_commit": ("/repo HEAD at the time (after the fix: commits)" if tag else "656b2a7 (pinned snapshot)") + "; applies to /repo HEAD with git apply",
     "independently_confirmed": line,
     "what_i_ran": [
-        f"tools/confirm_seed.sh /tmp/wt/{pid} /tmp/seed/{pid}/{m}   # scratch worktree: suite green with patch, demo fails with / passes without",
-        f"tools/try_seed.sh seeded/{pid}-{m}/patch.diff {pid} quick   # apply to /repo, run ./check {pid} quick, git checkout -- .",
+        f"tools/confirm_seed.sh <scratch worktree of /repo> {root}/{pid}/{m}   # scratch worktree: suite green with patch, demo fails with / passes without",
+        f"tools/try_seed.sh seeded/{pid}-{tag}{m}/patch.diff {pid} quick   # apply to /repo, run ./check {pid} quick, git checkout -- .",
     ],
     "caught_by_check": caught == "yes",
     "check_result": note,
